@@ -7,13 +7,16 @@ predicates evaluated directly on the implementation (1-5 populations, constants 
 nomut flags), plus whole models built from the public API.  The same predicates are evaluated again on sequences of calls made
 in ONE process in adversarial orders, every value compared with a pristine interpreter, together with a fail-closed obligation
 on the source (no module-level mutable state in the equilibrium densities, the time step, the mutation influx): c03_orders.py.
+Both predicates are also evaluated over the AMPLITUDE and DURATION regimes (coefficients and theta0 from 1e-12 to 1e12, phi = 0, epochs from a
+fraction of a step to hundreds of steps reaching stationarity, reference sizes 1e-3 .. 1e3; d = 1..5, both drivers, whole models), a few of
+them also through the correspondence with the model; a broken translator obligation triggers a targeted search there: c03_regimes.py.
 """
 import json, math
 from fractions import Fraction
 from harness import lib, numgen
 from harness.lib import q
 from harness.numgen import HEADER
-from harness.props import c02, c02_translate, c03_orders
+from harness.props import c02, c02_translate, c03_orders, c03_regimes
 
 TOL = Fraction(1, 10 ** 9)
 
@@ -93,12 +96,18 @@ def run(ctx):
             ctx.rule = 'replay of the recorded call sequence'
             c03_orders.replay(ctx, inp)
             return
+        if isinstance(inp, dict) and 'regime' in inp:        # a recorded amplitude / duration regime violation: exactly those calls again
+            ctx.rule = 'replay of the recorded calls of an amplitude / duration regime violation'
+            c03_regimes.replay(ctx, inp)
+            return
         ctx.notes.append('replay file carries no call sequence: the full check is repeated')
     ctx.rule = ('driver cases as in C02 (1-5 populations; constants / constant functions / linear-in-time functions; frozen and nomut flags), each run at '
                 'reference-size factors c in {1/16,1/2,2,16} and a random dyadic c in [0.05,20], and as superpositions (a,b) of two densities and thetas; '
                 'whole-model programs (equilibrium, size change, split, migration, selection, pulse admixture, growth, third population, removal, sampling) '
                 'run at the same factors; distinct = distinct parameter tuples; non-trivial = some migration or selection present')
-    ctx.assumptions += ['float64 drivers compared with the NumD model at 1e-9 relative to max|phi|; rescaled runs compared with each other at 1e-9 (powers of two: 1e-12)']
+    ctx.assumptions += ['amplitude / duration regimes: identities compared relative to the largest entry involved (|a| max|F1|, |b| max|F2|, max|result|) at 1e-10 '
+                        '(linearity) and 1e-12 / 1e-9 (rescaling by a power of two / any factor); observed on the unchanged tree <= 2e-12',
+                        'float64 drivers compared with the NumD model at 1e-9 relative to max|phi|; rescaled runs compared with each other at 1e-9 (powers of two: 1e-12)']
     c02_translate.obligations(ctx, tag='C03')
     rng = ctx.rng
     base = c02.gen_driver_cases(ctx)
@@ -132,8 +141,14 @@ def run(ctx):
                 c3['theta_slope'] = (a + bb) * c1.get('theta_slope', 0.0)
         i1 = len(cases); cases += [c1, c2, c3]
         triples.append((a, bb, i1, i1 + 1, i1 + 2))
+    # amplitude / duration regimes that also go through the correspondence with the model (tiny amplitudes over two, a few and many steps)
+    rcorr = c03_regimes.corr_cases(ctx)
+    rcorr_idx = list(range(len(cases), len(cases) + len(rcorr)))
+    cases += rcorr
     for i, c in enumerate(cases):
         c['id'] = i
+    # the amplitude / duration regimes of both predicates (c03_regimes.py): started here, accounted for below
+    regimes = c03_regimes.start(ctx)
     # the same predicates on sequences of calls in one process, in adversarial orders (c03_orders.py): started here, accounted for below
     orders = c03_orders.start(ctx, base)
     res = lib.run_impl('c03_impl.py', cases, timeout=3000)
@@ -187,19 +202,26 @@ def run(ctx):
                                 'case2': {x: y for x, y in c2.items() if not x.startswith('_')}, 'out3': c3['_out'], 'want': want})
     # --- correspondence: the rescaled cases against the model
     sel = [cases[mi] for bi, members in groups for k, mi in members[:1] if '_out' in cases[mi]]
+    sel += [cases[i] for i in rcorr_idx if '_out' in cases[i]]
     exprs = [(c['id'], c02.coq_dcase(c, c['_out'])) for c in sel]
     results = ctx.coq_cases('driver', HEADER, exprs, '(dcheck %s)' % q(TOL), 'rel 1e-09 of max|phi|', shard=ctx.pick(4, 8), timeout=1800)
     for c in sel:
         rr = results.get(c['id'])
         ok = rr is not None and rr[0]
-        ctx.obligation('rescaled driver case %d (%d pops) = model' % (c['id'], len(c['shape'])), ok, 'correspondence', '' if ok else 'coq result %r' % (rr,))
+        label = ('regime driver case %d (%d pops, %s)' % (c['id'], len(c['shape']), c['_regime'])) if '_regime' in c else 'rescaled driver case %d (%d pops)' % (c['id'], len(c['shape']))
+        if '_regime' in c:
+            ctx.count('correspondence with the model: %s' % c['_regime'].split(' (')[0])
+        ctx.obligation('%s = model' % label, ok, 'correspondence', '' if ok else 'coq result %r' % (rr,))
         if not ok:
-            ctx.violation('%d-population driver on rescaled parameters differs from the model (coq %r)' % (len(c['shape']), rr),
+            ctx.violation('%d-population driver on %s differs from the model (coq %r)' % (len(c['shape']), ('an input in the regime "%s"' % c['_regime']) if '_regime' in c else 'rescaled parameters', rr),
                           data={'case': {x: y for x, y in c.items() if not x.startswith('_')}, 'impl': c['_out']}, no_input=True,
                           broken='correspondence of the drivers with the Coq model (Model/SchemeCheck.v dcheck): the linearity / rescaling theorems are no longer shown to apply to this code; the predicates on the implementation found no failing input unless reported separately')
     # --- the predicates on call sequences in one process (adversarial orders, every value against a pristine interpreter) and the
     #     fail-closed source obligation (no module-level mutable state in phi_1D*, _compute_dt, _inject_mutations_*D)
     c03_orders.finish(ctx, orders)
+    # --- both predicates over the amplitude and duration regimes (tiny / huge coefficients and theta0, phi = 0, single-step to stationary epochs,
+    #     reference sizes 1e-3 .. 1e3), d = 1..5, both drivers; whole models and the equilibrium density at extreme theta0 and reference sizes
+    c03_regimes.finish(ctx, regimes)
     # --- the equilibrium density itself, in every numerical regime of phi_1D (gamma = 0, weak, |gamma*nu| around and far
     #     beyond the 300 overflow guards, both signs, genic and general-h branches, beta != 1)
     eq = []
@@ -278,3 +300,15 @@ def run(ctx):
                 ctx.violation('a whole model (%s) re-expressed relative to a reference size %g times larger gives a different spectrum (rel dev %.3g)%s' % (
                     '+'.join(s['op'] for s in pcases[bi]['steps']), k, dev, ': the equilibrium density phi_1D uses gamma where the stationary solution needs gamma*nu' if sel_ else ''),
                     data={'program': pcases[bi], 'factor': k, 'rescaled': pcases[mi], 'spectrum': b0['res'], 'rescaled_spectrum': m['res']}, key=key)
+    # --- a broken translator / source obligation and no failing input so far: targeted search on the functions the obligation names
+    #     (the amplitude / duration regimes at thorough size on the dimensions and drivers those functions belong to)
+    broken = [o for o in ctx.obligations if not o['ok'] and o['kind'] == 'translator']
+    if broken and not any(not v['no_input'] for v in ctx.violations):
+        nbad, hs = c03_regimes.search(ctx, [o['name'] for o in broken])
+        if nbad == 0 and not any(v['no_input'] for v in ctx.violations):
+            ctx.violation('obligation(s) on the source text no longer check: %s; the targeted search on the functions they name (%d settings, %d calls of the implementation: '
+                          'homogeneity, superposition, theta0 range, rescaling over amplitudes 1e-12..1e12, single-step to stationary epochs) found no failing input' % (
+                              '; '.join(o['name'] for o in broken[:5]), len(hs['settings']), hs['ncalls']),
+                          data={'obligations': broken[:20]}, no_input=True, broken=broken[0]['name'])
+    # failing inputs first: a broken correspondence / obligation is the explanation, the input is the finding
+    ctx.violations.sort(key=lambda v: bool(v['no_input']))
